@@ -163,6 +163,27 @@ pub fn mtypes() -> Vec<MType> {
             max_len_thorough: 5,
         },
         MType {
+            name: "usize",
+            ty: Ty::Int(Usize),
+            defs: Defs::default(),
+            alphabet: vec![
+                w(),
+                pi(0, Usize),
+                pi(u32::MAX as i128, Usize),
+                pr(0, u32::MAX as i128, true, Usize),
+                pr(1, u32::MAX as i128, true, Usize),
+                pr(0, u32::MAX as i128, false, Usize),
+                pr(0, 1i128 << 31, false, Usize),
+                pr(1i128 << 31, u32::MAX as i128, true, Usize),
+                pru(0, 1i128 << 32, false),
+                pru(5, 70000, true),
+                Pat::Int(1i128 << 32, None),
+                Pat::Int(7, None),
+            ],
+            max_len_quick: 4,
+            max_len_thorough: 5,
+        },
+        MType {
             name: "u64",
             ty: Ty::Int(U64),
             defs: Defs::default(),
@@ -641,9 +662,9 @@ fn check_list(mt: &MType, arms: &[&Pat], cnt: &Cnt, coll: &Collector) {
 /// parse error - never accepted); an accepted one must select exactly the values lo..=hi (checked on
 /// every value of the 8-bit types, on the end points and their neighbours otherwise).
 fn range_text_sweep(tier: Tier, budget: &Budget, coll: &Collector) -> serde_json::Value {
-    let nums: &[i128] = &[0, 1, 5, 127, 128, 255, 256, -1, -5, -128, -129, i64::MAX as i128, i64::MIN as i128, u64::MAX as i128];
+    let nums: &[i128] = &[0, 1, 5, 127, 128, 255, 256, -1, -5, -128, -129, u32::MAX as i128, 1i128 << 32, i64::MAX as i128, i64::MIN as i128, u64::MAX as i128];
     let sufs: &[Option<IntTy>] = if tier == Tier::Quick { &[None, Some(IntTy::U8), Some(IntTy::I8), Some(IntTy::I16)] } else { &[None, Some(IntTy::U8), Some(IntTy::I8), Some(IntTy::I16), Some(IntTy::U64), Some(IntTy::I64), Some(IntTy::Usize)] };
-    let tys: &[IntTy] = if tier == Tier::Quick { &[IntTy::U8, IntTy::I8, IntTy::I64] } else { &[IntTy::U8, IntTy::I8, IntTy::U64, IntTy::I64, IntTy::Usize, IntTy::U16, IntTy::I16] };
+    let tys: &[IntTy] = if tier == Tier::Quick { &[IntTy::U8, IntTy::I8, IntTy::I64, IntTy::Usize] } else { &[IntTy::U8, IntTy::I8, IntTy::U64, IntTy::I64, IntTy::Usize, IntTy::U16, IntTy::I16] };
     struct J {
         ty: IntTy,
         a: i128,
@@ -722,7 +743,7 @@ fn range_text_sweep(tier: Tier, budget: &Budget, coll: &Collector) -> serde_json
         }
     });
     json!({"programs": jobs.len(), "done": done, "accepted": accepted.load(Ordering::Relaxed), "refused": refused.load(Ordering::Relaxed), "evaluations": evals.load(Ordering::Relaxed),
-        "rule": "every range pattern a<sa>..b<sb> and a<sa>..=b<sb> as text over 14 boundary numbers x suffixes (absent, the scrutinee's, others) for each scrutinee type; suffix or end point outside the scrutinee type => must be refused; accepted => selects exactly lo..=hi"})
+        "rule": "every range pattern a<sa>..b<sb> and a<sa>..=b<sb> as text over 16 boundary numbers x suffixes (absent, the scrutinee's, others) for each scrutinee type; suffix or end point outside the scrutinee type => must be refused; accepted => selects exactly lo..=hi"})
 }
 
 pub fn run(tier: Tier) -> i32 {
